@@ -6,12 +6,12 @@ Line-protocol driver for the on-chain spend check (property C08).
 
   node <limit_msat> <h|d|u>
       new node: fee velocity control from the policy spec            → `ok <vc digest>`
-  tx <viaApprover 0|1> <maxFeerate> <dev 0|1> <flt 10×0/1> <now> <version> <baseSize> <txWeight> <nInputs>
+  tx <approver 0 = direct check | 1 = approving | 2 = declining> <maxFeerate> <dev 0|1> <flt 10×0/1> <now> <version> <baseSize> <txWeight> <nInputs>
      <segwit 0/1-string|-> <inValues a,b,..|-> <ucks e,e,..|-> <nOpaths> <outs o;o;..|->
       uck entry:  P (index ≥ prev_outs.len) | I (invalid spend type) | N (None) | S<len>
       out:        value:pathLen:cs:sa:xp:chan   cs ∈ t|f|e   sa ∈ 0|1   xp ∈ y|n|p
                   chan = - | value/scriptMatch/outbound/pushMsat/nextHolderCommit
-      → `ok | <vc>` · `unknown [i,..] | <vc>` · `err:<tag> | <vc>` · `panic`
+      → `ok [flow=signed] | <vc>` · `unknown [i,..] | <vc>` · `err:<tag> | <vc>` · `panic`
   After a panic the node is considered dead (poisoned locks): every further line answers `dead`.
 -/
 namespace VlsModel.Drv.Onchain
@@ -81,6 +81,9 @@ def resStr (viaApprover : Bool) : Res → String
   | .err t => if viaApprover then "err:*" else s!"err:{t.name}"
   | .panic => "panic"
 
+def flowStr : FlowRes → String
+  | .signed => "signed" | .declined => "declined" | .refused _ => "refused" | .panic => "panic"
+
 def step (s : St) (toks : List String) : St × String :=
   if s.dead then (s, "dead") else
   match toks with
@@ -89,9 +92,10 @@ def step (s : St) (toks : List String) : St × String :=
     | some l, some t => let v := Velocity.VC.ofSpec ⟨l, t⟩; ({ vc := v, dead := false }, "ok " ++ vcDigest v)
     | _, _ => (s, "bad-op")
   | ["tx", ap, mf, dev, flt, now, ver, bs, w, nin, sw, iv, uck, nop, outs] =>
-    match bool01? ap with
+    match (match ap with | "0" => some (0 : Nat) | "1" => some 1 | "2" => some 2 | _ => none) with
     | none => (s, "bad-op")
-    | some ap =>
+    | some apn =>
+    let ap := apn != 0
     match nat? mf, bool01? dev, filter? flt, nat? now, nat? ver, nat? bs, nat? w, nat? nin with
     | some mf, some dev, some flt, some now, some ver, some bs, some w, some nin =>
       match segwit? sw, mapM? nat? (splitList iv ","), mapM? uck? (splitList uck ","), nat? nop,
@@ -102,7 +106,10 @@ def step (s : St) (toks : List String) : St × String :=
         let (vc', res) := checkOnchain p s.vc now r
         match res with
         | .panic => ({ vc := vc', dead := true }, "panic")
-        | _ => ({ s with vc := vc' }, resStr ap res ++ " | " ++ vcDigest vc')
+        | _ =>
+          -- through the approver (1 = approves, 2 = declines) the line also carries the outcome of the flow
+          let flow := if ap then " flow=" ++ flowStr (flowOnchain p s.vc now r (apn == 1)).2 else ""
+          ({ s with vc := vc' }, resStr ap res ++ flow ++ " | " ++ vcDigest vc')
       | _, _, _, _, _ => (s, "bad-op")
     | _, _, _, _, _, _, _, _ => (s, "bad-op")
   | _ => (s, "bad-op")
